@@ -386,6 +386,33 @@ Theorem c09_v2_hook_borrow_block : forall capf vl counter off0 b r1 ids liq off1
 Proof. exact v2_hook_borrow_block. Qed.
 Print Assumptions c09_v2_hook_borrow_block.
 
+(* the hypothesis "vf x = VSeize" of the borrow liveness theorems below, in the property's terms:
+   OUTSIDE the known-finding class C09-F5 the visit of a borrow seizes it as soon as the property's
+   hypotheses hold (the borrow is open, kill switch off, liquidation whitelisted for the app with
+   an auction type activated, prices active = ratio computable) and it is above its threshold *)
+Theorem c09_live_borrow_verdict : forall b,
+  live_hyp_borrow b = true -> borrow_unsafe b = true -> kf_C09_5 b = false ->
+  seize_rule_borrow GB2 b = VSeize.
+Proof. exact live_borrow_verdict. Qed.
+Print Assumptions c09_live_borrow_verdict.
+
+(* ---- refuted inside the class (finding C09-F5): every hypothesis of the property holds and the
+   borrow is above its threshold, but the collateral's pool holds one unit less of the collateral asset
+   than the borrow recorded (lent out to other borrowers): the visit fails, and NO sweep ever seizes
+   the borrow - whatever the list, the offset, the batch size - while the pool stays short ---- *)
+Theorem c09_live_borrow_pool_short_refuted :
+  let b := c09_ex_borrow 5 3 false 550000000000000000 99999999 in
+  live_hyp_borrow b = true /\ borrow_unsafe b = true /\ kf_C09_5 b = true /\
+  seize_rule_borrow GB2 b = VErr /\
+  (forall bs cap off batch r, NoDup (map b_id bs) -> In b bs ->
+     sweep_one GB2 0 (map (pos_of_borrow GB2) bs) cap (zlen bs) off batch = Ok r -> ~ In (b_id b) (r_seized r)).
+Proof.
+  cbn zeta. repeat split; try (vm_compute; reflexivity).
+  intros bs cap off batch r Hnd Hb H.
+  eapply not_seize_never; eauto; [discriminate|]. vm_compute. discriminate.
+Qed.
+Print Assumptions c09_live_borrow_pool_short_refuted.
+
 (* quiet chain: a borrow that is above its threshold (verdict VSeize: liquidation enabled, prices
    active, controls off) in every block is liquidated within (n-1)/batch + 2 blocks, whatever the
    other borrows do in those blocks (erroring and panicking borrows in front of it included) ... *)
